@@ -184,7 +184,13 @@ def stmts(draw, cfg: Cfg, mode: str, version: int, fields, subs: List[str], dept
             el = draw(stmts(cfg, mode, version, fields, subs, depth + 1, budget, in_sub)) if depth < 3 and draw(st.booleans()) else []
             out.append(["if", c, th, el, draw(st.sampled_from(["bz", "bnz"]))])
         elif kind == "while":
-            body = draw(stmts(cfg, mode, version, fields, subs, depth + 1, budget, in_sub))
+            if cfg.on("abs_read_in_loop"):
+                body = draw(stmts(cfg, mode, version, fields, subs, depth + 1, budget, in_sub))
+            else:
+                # known finding: a loop body is never part of a reported path; keep absolute-index
+                # reads (and calls, which could hide them) out of loop bodies
+                cfg2 = Cfg(cfg.profile, cfg.off | {"gtxn_reads"}, cfg.focus, cfg.mode)
+                body = draw(stmts(cfg2, mode, version, fields, [], depth + 1, budget, in_sub))
             out.append(["while", draw(st.integers(1, 3)), body, draw(st.integers(0, 3)), draw(st.booleans())])
         elif kind == "switch":
             arms = [draw(stmts(cfg, mode, version, fields, subs, depth + 1, budget, in_sub)) for _ in range(draw(st.integers(1, 3)))]
